@@ -32,6 +32,18 @@ def check(ctx):
             check_next(ctx, tu, info, f)
         L.check_traversal(ctx, 'C19.G', tu, info)
         check_transfer(ctx, tu, info)
+        # every generation is drawn by getNextCounter: a raw increment elsewhere bypasses the wrap handling and can hand out 0, the
+        # mark of a removed callback (nodes stamped with it are never invoked, and remove() reports them as already gone)
+        from ..effects import writes as _writes
+        for f in tu.fns:
+            if f.outermost().cls != 'CallbackListBase' or f.outermost().name == 'getNextCounter':
+                continue
+            raw = [w for w in _writes(f) if w['path'] == ('this', '.currentCounter') and
+                   (w['how'] in ('++', '--', '+=', '-=') or (w['how'].startswith('call:') and w['how'][5:].split('::')[-1] in ('fetch_add', 'fetch_sub')))]
+            if raw or f.name in ('cloneFrom', 'doAllocateNode', 'append', 'prepend', 'insert'):
+                ctx.ob('C19.Z', f, 'generations are drawn through getNextCounter only', not raw,
+                       detail='raw %s of currentCounter at %s' % (', '.join(w['how'] for w in raw), ', '.join(f.nloc(w['node']) for w in raw)),
+                       key_detail='raw draw')
     ctx.require_min('C19.Z', 1)
     ctx.require_min('C19.W', 1)
     ctx.require_min('C19.G', 3)
